@@ -39,9 +39,9 @@ SIDK = ['absent', 'live', 'upgraded', 'mid', 'closed', 'unknown', 'rejected']
 HDRS = ['none', 'both', 'upgrade-only', 'wrong']
 JP = [None, '0', '12', 'abc', '1x']
 CONF = [None, 'polling', 'websocket']
-SRV = ['T', 'A']
+SRV = ['T', 'A', 'H']      # H: the asyncio server behind the real aiohttp adapter
 DIMS = [len(METHODS), len(EIO), len(TRANSPORT), len(SIDK), len(HDRS), len(JP),
-        len(CONF), 2]
+        len(CONF), 3]
 DEFAULT = (0, 2, 1, 1, 0, 0, 0, 0)
 
 
@@ -295,6 +295,7 @@ def run_raw(rec, case):
         want = raw_must_refuse(method, pairs)
         before = norm_snapshot(sim)
         kw = {'env_override': {'QUERY_STRING': qs}} if srv == 'T' else \
+            {'raw_query': qs} if srv == 'H' else \
             {'scope_override': {'query_string': qs.encode()}}
         t = sim.request(method, {}, {}, body=b'4x' if method == 'POST'
                         else None, **kw)
@@ -366,7 +367,7 @@ def plan(tier, seed):
                 HDRS[c[4]] == 'none' and CONF[c[6]] is None and
                 sum(1 for a, b in zip(c[:7], DEFAULT[:7]) if a != b) <= 4]
         chosen = list(dict.fromkeys(near + fam + fam2)) + \
-            rng.sample(allc, 2000)
+            rng.sample(allc, 3000)
     # deployments without a WebSocket driver: every request that names a
     # session or asks for WebSocket
     nodrv = [c + (0,) for c in allc
